@@ -80,4 +80,4 @@ package common
 // ASCII lower-casing of the five parameter annotation names (facts about strings.ToLower, assumed)
 //@ axiom lowerParamNames: strings.ToLower("Path") == "path" && strings.ToLower("Query") == "query" && strings.ToLower("Header") == "header" && strings.ToLower("Body") == "body" && strings.ToLower("FormField") == "formfield"
 
-//@ event nodeRemoved(baseId string, fileId string)
+//@ event nodeRemoved(baseId string, fileId string) local
